@@ -258,6 +258,7 @@ func getFixture() (*fixture, error) {
 			d := os.Getenv("VERIF_OUT")
 			if d == "" {
 				d, _ = os.MkdirTemp("", "c38-scratch")
+				scratchDir = d
 			}
 			if old, err := os.Getwd(); err == nil && d != "" && os.Chdir(d) == nil {
 				defer os.Chdir(old)
@@ -872,6 +873,17 @@ func hasOpenEnded(c c38Case) bool {
 		}
 	}
 	return false
+}
+
+// scratchDir is the temporary directory used when the package is run without the driver; TestMain removes it.
+var scratchDir string
+
+func TestMain(m *testing.M) {
+	code := m.Run()
+	if scratchDir != "" {
+		os.RemoveAll(scratchDir)
+	}
+	os.Exit(code)
 }
 
 // A fuzz worker starts its proxy and backend before the engine starts timing executions.
